@@ -40,8 +40,15 @@ import (
 type c16Scenario struct {
 	Sc    int               `json:"sc"`
 	Ep    string            `json:"ep"`
-	Shape map[string]string `json:"shape"`
+	Shape map[string]string `json:"shape,omitempty"`
+	// history mode (spec/RobustnessInst.tla): the configuration of the long-lived instance (its probe
+	// shape) and the steps of the history; see zz_verif_c16_inst_test.go
+	Tmpl  string            `json:"tmpl,omitempty"`
+	Inst  map[string]string `json:"inst,omitempty"`
+	Steps []c16Step         `json:"steps,omitempty"`
 }
+
+func (s c16Scenario) history() bool { return len(s.Steps) > 0 }
 
 // c16Res is how a duty ended.
 type c16Res struct {
@@ -87,8 +94,19 @@ func c16Used(ctx context.Context, use string, r c16Res) {
 }
 
 // c16Terminal: the events that end a scenario (everything else is an intermediate step of it).
-func c16Terminal(ev interface{}) bool {
-	switch ev {
+func c16Terminal(l c16Line, history bool) bool {
+	if history {
+		// a history goes on after a call came back (or lost its value in a library decoder)
+		switch l["ev"] {
+		case "Close", "Crash", "Hung", "Stuck", "HarnessError":
+			return true
+		case "DecoderPanic":
+			fatal, _ := l["fatal"].(bool)
+			return fatal
+		}
+		return false
+	}
+	switch l["ev"] {
 	case "Outcome", "Undeliverable", "DecoderPanic", "Crash", "Stuck", "HarnessError":
 		return true
 	}
@@ -99,9 +117,15 @@ var c16Runners = map[string]c16Runner{}
 
 func c16Register(ep string, r c16Runner) { c16Runners[ep] = r }
 
-const c16Watchdog = 45 * time.Second
+// c16Watchdog: a single-input scenario that has not ended after this time never will (the longest legitimate
+// one is a block relay service start with a relay that does not answer: a few client time-outs of 2 s); the
+// Stuck line is only a verdict if it reproduces when the scenario is run alone.
+const c16Watchdog = 25 * time.Second
 
 const c16LaneSize = 40
+
+// histories are several calls each
+const c16HistoryLaneSize = 10
 
 func c16Short(s string, n int) string {
 	s = strings.ReplaceAll(s, "\n", " | ")
@@ -276,6 +300,10 @@ func c16Child(t *testing.T) {
 	defer f.Close()
 
 	for _, sc := range scenarios {
+		if sc.history() {
+			c16RunHistory(log, f, sc)
+			continue
+		}
 		run, ok := c16Runners[sc.Ep]
 		if !ok {
 			t.Fatalf("child: no runner for entry point %q", sc.Ep)
@@ -370,6 +398,10 @@ func c16RunLane(t *testing.T, dir string, lane string, scenarios []c16Scenario) 
 	var all []c16Line
 	remaining := scenarios
 	round := 0
+	histories := map[int]bool{}
+	for _, s := range scenarios {
+		histories[s.Sc] = s.history()
+	}
 	for len(remaining) > 0 {
 		round++
 		in := fmt.Sprintf("%s/lane-%s-%d.in", dir, lane, round)
@@ -402,17 +434,16 @@ func c16RunLane(t *testing.T, dir string, lane string, scenarios []c16Scenario) 
 		var pending *c16Line
 		for i := range lines {
 			l := lines[i]
-			switch l["ev"] {
-			case "Done":
+			if l["ev"] == "Done" {
 				doneSeen = true
 				continue
-			case "Call":
+			}
+			// every line of a scenario but its terminal one leaves the scenario pending
+			if c16Terminal(l, histories[c16Sc(l)]) {
+				pending = nil
+				closed[c16Sc(l)] = true
+			} else {
 				pending = &lines[i]
-			default:
-				if c16Terminal(l["ev"]) {
-					pending = nil
-					closed[c16Sc(l)] = true
-				}
 			}
 			all = append(all, l)
 		}
@@ -447,6 +478,28 @@ func c16RunLane(t *testing.T, dir string, lane string, scenarios []c16Scenario) 
 			all = append(all, c16Line{"sc": sc, "ev": "DecoderPanic", "ep": (*pending)["ep"], "text": c16Short(text, 200), "decoder": decoder, "via": frame, "fatal": true})
 		} else {
 			all = append(all, c16Line{"sc": sc, "ev": "Crash", "ep": (*pending)["ep"], "text": c16Short(text, 200), "frame": frame, "fatal": true})
+		}
+		if histories[sc] {
+			// the calls of the history that had been started and had not come back when the process died
+			open := map[int]bool{}
+			for _, l := range lines {
+				if c16Sc(l) != sc {
+					continue
+				}
+				n, _ := l["call"].(float64)
+				switch l["ev"] {
+				case "Call":
+					open[int(n)] = true
+				case "Return", "Undeliverable", "DecoderPanic":
+					delete(open, int(n))
+				}
+			}
+			calls := []int{}
+			for n := range open {
+				calls = append(calls, n)
+			}
+			sort.Ints(calls)
+			all[len(all)-1]["calls"] = calls
 		}
 		next := len(remaining)
 		for i, s := range remaining {
@@ -491,6 +544,15 @@ func TestVerifC16(t *testing.T) {
 			t.Fatalf("no runner for entry point %q", s.Ep)
 		}
 		lane := fmt.Sprintf("%s-%02d", s.Ep, count[s.Ep]/c16LaneSize)
+		if s.history() {
+			if _, ok := c16Factories[s.Ep]; !ok {
+				t.Fatalf("no long-lived instance for entry point %q", s.Ep)
+			}
+			lane = fmt.Sprintf("h-%s-%02d", s.Ep, count["h-"+s.Ep]/c16HistoryLaneSize)
+			count["h-"+s.Ep]++
+			lanes[lane] = append(lanes[lane], s)
+			continue
+		}
 		count[s.Ep]++
 		lanes[lane] = append(lanes[lane], s)
 	}
@@ -503,7 +565,8 @@ func TestVerifC16(t *testing.T) {
 	results := map[string][]c16Line{}
 	var mu sync.Mutex
 	var wg sync.WaitGroup
-	sem := make(chan struct{}, 8)
+	// most lanes wait (timeouts of strategies and clients, held calls) rather than compute
+	sem := make(chan struct{}, 16)
 	var firstErr error
 	for _, n := range names {
 		wg.Add(1)
@@ -511,7 +574,9 @@ func TestVerifC16(t *testing.T) {
 			defer wg.Done()
 			sem <- struct{}{}
 			defer func() { <-sem }()
+			t0 := time.Now()
 			lines, err := c16RunLane(t, dir, n, lanes[n])
+			fmt.Printf("lane %s: %d scenarios, %.1fs\n", n, len(lanes[n]), time.Since(t0).Seconds())
 			mu.Lock()
 			defer mu.Unlock()
 			if err != nil && firstErr == nil {
